@@ -1,15 +1,18 @@
 (** Model/Extract.v — executable model of
     [note_seq.sequences_lib._extract_subsequences] (sequences_lib.py:134-329),
     [extract_subsequence] and [trim_note_sequence], followed pass by pass, and
-    the declarative specification [extract_spec_*] written with filter/map.
+    the declarative specification written with filter/map/last only.
 
     Times are exact ticks ([Z]).  No proofs in this file.
 
-    Representation of the code's state:
-    - [subsequence_index] (starts at -1) is carried as [k = subsequence_index + 1 : nat];
-      [split_times[subsequence_index + 1]] is [tsn ts k], the piece written to is
-      [k - 1].  The inner [while] loops recurse over [skipn k ts] (= the split times
-      not yet passed), which is only the termination argument.
+    Representation of the code's loop state:
+    - [subsequence_index] (starts at -1) is carried as the triple
+        [k    = subsequence_index + 1 : nat]      (number of split times passed),
+        [a    = split_times[subsequence_index]]   (never read while the index is -1),
+        [rest = split_times[subsequence_index + 1 :]].
+      So [split_times[subsequence_index + 1]] is the head of [rest],
+      [subsequence_index < len(split_times) - 1] is [rest <> []], and
+      [subsequence_index == len(split_times) - 1] is [rest = []].
     - [containers[i].extend([x])] is an emission [(i, x)] appended to a log; the
       content of container [i] is [collect i log] (the emissions to [i], in order).
     - [previous_pedal_events] (a dict, insertion ordered) is an association list;
@@ -26,6 +29,9 @@ Fixpoint insert_by {A} (key : A -> Z) (x : A) (l : list A) : list A :=
   | y :: r => if key x <=? key y then x :: l else y :: insert_by key x r
   end.
 
+(** Insertion sort from the right: an element is placed before every element
+    already present (= stored later) whose key is >= its own, so elements with
+    equal keys keep their storage order (stability). *)
 Fixpoint sort_by {A} (key : A -> Z) (l : list A) : list A :=
   match l with
   | [] => []
@@ -47,29 +53,34 @@ Definition tsn (ts : list Z) (i : nat) : Z := nth i ts 0.
 Definition opt_list {A} (o : option A) : list A :=
   match o with Some x => [x] | None => [] end.
 
+Definition walk := (nat * Z * list Z)%type.      (* (k, a, rest) *)
+
 (** * Note pass (lines 190-209) and BEAT pass (lines 261-278): same index walk.
 
     [while subsequence_index < len(split_times) - 1 and
            x >= split_times[subsequence_index + 1]: subsequence_index += 1] *)
-Fixpoint adv_ge (x : Z) (rest : list Z) (k : nat) : nat :=
+Fixpoint adv_ge (x : Z) (k : nat) (a : Z) (rest : list Z) : walk :=
   match rest with
-  | [] => k
-  | t :: rest' => if x >=? t then adv_ge x rest' (S k) else k
+  | [] => (k, a, [])
+  | t :: rest' => if x >=? t then adv_ge x (S k) t rest' else (k, a, rest)
   end.
 
-Fixpoint note_pass (ts : list Z) (k : nat) (l : list note) : list (nat * note) :=
+(** [notes[-1].start_time -= split_times[i];
+     notes[-1].end_time = min(note.end_time, split_times[i+1]) - split_times[i]] *)
+Definition clipshift (a b : Z) (n : note) : note :=
+  note_with_times n (n_start n - a) (Z.min (n_end n) b - a).
+
+Fixpoint note_pass (t0 : Z) (k : nat) (a : Z) (rest : list Z) (l : list note) : list (nat * note) :=
   match l with
   | [] => []
   | n :: l' =>
-      if n_start n <? tsn ts 0 then note_pass ts k l'                  (* continue *)
+      if n_start n <? t0 then note_pass t0 k a rest l'                 (* continue *)
       else
-        let k' := adv_ge (n_start n) (skipn k ts) k in
-        if Nat.eqb k' (length ts) then []                              (* break *)
-        else
-          let a := tsn ts (k' - 1) in
-          let b := tsn ts k' in
-          ((k' - 1)%nat, note_with_times n (n_start n - a) (Z.min (n_end n) b - a))
-            :: note_pass ts k' l'
+        match adv_ge (n_start n) k a rest with
+        | (_, _, []) => []                                             (* break *)
+        | (k', a', (b :: _) as rest') =>
+            ((k' - 1)%nat, clipshift a' b n) :: note_pass t0 k' a' rest' l'
+        end
   end.
 
 (** [if notes[-1].end_time > total_time: total_time = notes[-1].end_time], from 0.0 *)
@@ -79,15 +90,17 @@ Definition piece_total (ns : list note) : Z :=
 Definition text_with_time (t : text) (x : Z) : text :=
   mkText x (tx_qstep t) (tx_text t) (tx_type t).
 
-Fixpoint beat_pass (ts : list Z) (k : nat) (l : list text) : list (nat * text) :=
+Fixpoint beat_pass (t0 : Z) (k : nat) (a : Z) (rest : list Z) (l : list text) : list (nat * text) :=
   match l with
   | [] => []
   | e :: l' =>
-      if tx_time e <? tsn ts 0 then beat_pass ts k l'
+      if tx_time e <? t0 then beat_pass t0 k a rest l'
       else
-        let k' := adv_ge (tx_time e) (skipn k ts) k in
-        if Nat.eqb k' (length ts) then []
-        else ((k' - 1)%nat, text_with_time e (tx_time e - tsn ts (k' - 1))) :: beat_pass ts k' l'
+        match adv_ge (tx_time e) k a rest with
+        | (_, _, []) => []
+        | (k', a', (_ :: _) as rest') =>
+            ((k' - 1)%nat, text_with_time e (tx_time e - a')) :: beat_pass t0 k' a' rest' l'
+        end
   end.
 
 (** * State-event passes (lines 227-256)
@@ -97,40 +110,41 @@ Fixpoint beat_pass (ts : list Z) (k : nat) (l : list text) : list (nat * text) :
        subsequence_index += 1
        if subsequence_index == len(split_times) - 1: break
        <emit the carried events, time 0, into containers[subsequence_index]>]
-    Returns the new [k] and the emissions.  [carry] is already re-timed to 0. *)
-Fixpoint adv_gt_carry {A} (x : Z) (rest : list Z) (k len : nat) (carry : list A)
-  : nat * list (nat * A) :=
+    Returns the new walk state and the emissions.  [carry] is already re-timed to 0. *)
+Fixpoint adv_gt {A} (x : Z) (k : nat) (a : Z) (rest : list Z) (carry : list A)
+  : walk * list (nat * A) :=
   match rest with
-  | [] => (k, [])
+  | [] => ((k, a, []), [])
   | t :: rest' =>
       if x >? t then
-        if Nat.eqb k (len - 1) then (S k, [])        (* new index = k = len - 1: break *)
-        else
-          let r := adv_gt_carry x rest' (S k) len carry in
-          (fst r, map (fun c => (k, c)) carry ++ snd r)
-      else (k, [])
+        match rest' with
+        | [] => ((S k, t, []), [])                    (* new index = len - 1: break *)
+        | _ :: _ =>
+            let r := adv_gt x (S k) t rest' carry in
+            (fst r, map (fun c => (k, c)) carry ++ snd r)
+        end
+      else ((k, a, rest), [])
   end.
 
 (** [while subsequence_index < len(split_times) - 2: subsequence_index += 1; <emit carry>] *)
-Definition flush_carry {A} (len k : nat) (carry : list A) : list (nat * A) :=
-  flat_map (fun i => map (fun c => (i, c)) carry) (seq k (len - 1 - k)).
+Definition flush_carry {A} (k : nat) (rest : list Z) (carry : list A) : list (nat * A) :=
+  flat_map (fun i => map (fun c => (i, c)) carry) (List.seq k (length rest - 1)).
 
-Fixpoint state_pass {A} (time : A -> Z) (set_time : A -> Z -> A) (ts : list Z)
-         (k : nat) (prev : option A) (l : list A) : list (nat * A) :=
+Fixpoint state_pass {A} (time : A -> Z) (set_time : A -> Z -> A) (t0 : Z)
+         (k : nat) (a : Z) (rest : list Z) (prev : option A) (l : list A) : list (nat * A) :=
   match l with
-  | [] => flush_carry (length ts) k (map (fun p => set_time p 0) (opt_list prev))
+  | [] => flush_carry k rest (map (fun p => set_time p 0) (opt_list prev))
   | e :: l' =>
-      if time e <=? tsn ts 0 then state_pass time set_time ts k (Some e) l'
+      if time e <=? t0 then state_pass time set_time t0 k a rest (Some e) l'
       else
-        let r := adv_gt_carry (time e) (skipn k ts) k (length ts)
-                              (map (fun p => set_time p 0) (opt_list prev)) in
-        let k' := fst r in
-        if Nat.eqb k' (length ts) then snd r                            (* break; no flush *)
-        else
-          snd r
-          ++ (if time e <? tsn ts k'
-              then [((k' - 1)%nat, set_time e (time e - tsn ts (k' - 1)))] else [])
-          ++ state_pass time set_time ts k' (Some e) l'
+        let r := adv_gt (time e) k a rest (map (fun p => set_time p 0) (opt_list prev)) in
+        match fst r with
+        | (_, _, []) => snd r                                            (* break; no flush *)
+        | (k', a', (b :: _) as rest') =>
+            snd r
+            ++ (if time e <? b then [((k' - 1)%nat, set_time e (time e - a'))] else [])
+            ++ state_pass time set_time t0 k' a' rest' (Some e) l'
+        end
   end.
 
 (** * Pedal pass (lines 283-321): the same walk with a dict of previous events *)
@@ -143,22 +157,21 @@ Fixpoint dict_set {A} (d : list (key * A)) (k : key) (v : A) : list (key * A) :=
   | (k', v') :: r => if key_eqb k' k then (k', v) :: r else (k', v') :: dict_set r k v
   end.
 
-Fixpoint dict_pass {A} (kf : A -> key) (time : A -> Z) (set_time : A -> Z -> A) (ts : list Z)
-         (k : nat) (d : list (key * A)) (l : list A) : list (nat * A) :=
+Fixpoint dict_pass {A} (kf : A -> key) (time : A -> Z) (set_time : A -> Z -> A) (t0 : Z)
+         (k : nat) (a : Z) (rest : list Z) (d : list (key * A)) (l : list A) : list (nat * A) :=
   match l with
-  | [] => flush_carry (length ts) k (map (fun p => set_time (snd p) 0) d)
+  | [] => flush_carry k rest (map (fun p => set_time (snd p) 0) d)
   | e :: l' =>
-      if time e <=? tsn ts 0 then dict_pass kf time set_time ts k (dict_set d (kf e) e) l'
+      if time e <=? t0 then dict_pass kf time set_time t0 k a rest (dict_set d (kf e) e) l'
       else
-        let r := adv_gt_carry (time e) (skipn k ts) k (length ts)
-                              (map (fun p => set_time (snd p) 0) d) in
-        let k' := fst r in
-        if Nat.eqb k' (length ts) then snd r
-        else
-          snd r
-          ++ (if time e <? tsn ts k'
-              then [((k' - 1)%nat, set_time e (time e - tsn ts (k' - 1)))] else [])
-          ++ dict_pass kf time set_time ts k' (dict_set d (kf e) e) l'
+        let r := adv_gt (time e) k a rest (map (fun p => set_time (snd p) 0) d) in
+        match fst r with
+        | (_, _, []) => snd r
+        | (k', a', (b :: _) as rest') =>
+            snd r
+            ++ (if time e <? b then [((k' - 1)%nat, set_time e (time e - a'))] else [])
+            ++ dict_pass kf time set_time t0 k' a' rest' (dict_set d (kf e) e) l'
+        end
   end.
 
 (** * Event kinds *)
@@ -192,13 +205,15 @@ Definition pedals_of (pres : list Z) (s : seq) : list cc :=
   filter (fun c => zmem (cc_num c) pres) (s_ccs s).
 
 Definition extract_pieces (pres : list Z) (s : seq) (ts : list Z) : list seq :=
-  let nlog := note_pass ts 0 (sort_by n_start (s_notes s)) in
-  let tslog := state_pass ts_time tsig_with_time ts 0 None (sort_by ts_time (s_tsigs s)) in
-  let kslog := state_pass ks_time ksig_with_time ts 0 None (sort_by ks_time (s_ksigs s)) in
-  let tplog := state_pass tp_time tempo_with_time ts 0 None (sort_by tp_time (s_tempos s)) in
-  let chlog := state_pass tx_time text_with_time ts 0 None (sort_by tx_time (chords_of s)) in
-  let btlog := beat_pass ts 0 (sort_by tx_time (beats_of s)) in
-  let cclog := dict_pass pedal_key cc_time cc_with_time ts 0 [] (sort_by cc_time (pedals_of pres s)) in
+  let t0 := tsn ts 0 in
+  let nlog := note_pass t0 0 0 ts (sort_by n_start (s_notes s)) in
+  let tslog := state_pass ts_time tsig_with_time t0 0 0 ts None (sort_by ts_time (s_tsigs s)) in
+  let kslog := state_pass ks_time ksig_with_time t0 0 0 ts None (sort_by ks_time (s_ksigs s)) in
+  let tplog := state_pass tp_time tempo_with_time t0 0 0 ts None (sort_by tp_time (s_tempos s)) in
+  let chlog := state_pass tx_time text_with_time t0 0 0 ts None (sort_by tx_time (chords_of s)) in
+  let btlog := beat_pass t0 0 0 ts (sort_by tx_time (beats_of s)) in
+  let cclog := dict_pass pedal_key cc_time cc_with_time t0 0 0 ts []
+                         (sort_by cc_time (pedals_of pres s)) in
   map (fun i =>
          let ns := collect i nlog in
          let total := piece_total ns in
@@ -208,7 +223,7 @@ Definition extract_pieces (pres : list Z) (s : seq) (ts : list Z) : list seq :=
                total (s_qsteps s) (s_spq s) (s_sps s)
                (tsn ts i, s_total s - tsn ts i - total)
                (s_tpq s) (s_rest s))
-      (seq 0 (length ts - 1)).
+      (List.seq 0 (length ts - 1)).
 
 Definition extract_subsequences (pres : list Z) (s : seq) (ts : list Z) : res (list seq) :=
   if is_quantized s then Err ErrQuantized
@@ -239,9 +254,6 @@ Definition trim (s : seq) (a b : Z) : res seq :=
     last event with time <= a" is well defined for coinciding events. *)
 Definition last_opt {A} (l : list A) : option A := last (map Some l) None.
 
-Definition clipshift (a b : Z) (n : note) : note :=
-  note_with_times n (n_start n - a) (Z.min (n_end n) b - a).
-
 Definition in_piece (a b x : Z) : bool := (a <=? x) && (x <? b).
 Definition strictly_inside (a b x : Z) : bool := (a <? x) && (x <? b).
 
@@ -259,38 +271,18 @@ Definition beats_spec (a b : Z) (evs : list text) : list text :=
 
 (** pedal events of one (instrument, control number): the state specification
     of the events with that key *)
+Definition with_key (kk : key) (l : list cc) : list cc :=
+  filter (fun c => key_eqb (pedal_key c) kk) l.
+
 Definition pedal_spec (pres : list Z) (kk : key) (a b : Z) (s : seq) : list cc :=
-  state_spec cc_time cc_with_time a b
-             (filter (fun c => key_eqb (pedal_key c) kk) (pedals_of pres s)).
+  state_spec cc_time cc_with_time a b (with_key kk (pedals_of pres s)).
 
 Definition max_end (ns : list note) : Z := fold_right (fun n acc => Z.max (n_end n) acc) 0 ns.
-
-Record piece_obs := mkObs {
-  po_notes : list note; po_tempos : list tempo; po_tsigs : list tsig; po_ksigs : list ksig;
-  po_chords : list text; po_beats : list text; po_total : Z; po_sub : Z * Z }.
-
-Definition extract_spec_piece (s : seq) (a b : Z) : piece_obs :=
-  let ns := notes_spec a b (sort_by n_start (s_notes s)) in
-  mkObs ns
-        (state_spec tp_time tempo_with_time a b (s_tempos s))
-        (state_spec ts_time tsig_with_time a b (s_tsigs s))
-        (state_spec ks_time ksig_with_time a b (s_ksigs s))
-        (state_spec tx_time text_with_time a b (chords_of s))
-        (beats_spec a b (beats_of s))
-        (max_end ns)
-        (a, s_total s - a - max_end ns).
-
-Definition obs_of (p : seq) : piece_obs :=
-  mkObs (s_notes p) (s_tempos p) (s_tsigs p) (s_ksigs p) (chords_of p) (beats_of p)
-        (s_total p) (s_sub p).
 
 (** consecutive pairs of split times = the pieces *)
 Definition intervals (ts : list Z) : list (Z * Z) := combine ts (tl ts).
 
-Definition extract_spec (s : seq) (ts : list Z) : list piece_obs :=
-  map (fun ab => extract_spec_piece s (fst ab) (snd ab)) (intervals ts).
-
-(** * Value in effect (used by the theorems and exposed through Run for the harness)
+(** * Value in effect
 
     The event in effect at instant [t]: the last event, in stable time order,
     with [time <= t]; compared with its time erased. *)
